@@ -36,7 +36,9 @@ Inductive phase :=
 | Moving                                     (* __enter__: jobs.bak exists, old links being moved *)
 | Inside (sub linked : list jobid)               (* inside the block: jobs submitted / linked so far *)
 | ExitRm (sub linked : list jobid)           (* __exit__ without exception: rmtree(jobs.bak) *)
-| ExitWait (sub linked : list jobid).        (* __exit__ without exception: self.wait() *)
+| ExitWait (sub linked : list jobid)         (* __exit__ without exception: self.wait() *)
+| ExitFin (sub linked : list jobid).         (* only in the repaired order (step_late): wait() succeeded and the backup
+                                                is gone, the finally-clause has not yet released the lock *)
 
 Definition is_out (p : phase) : bool := match p with Out => true | _ => false end.
 
@@ -75,13 +77,17 @@ Inductive event :=
 | Done (p : proc)                (* wait() is over, the lock is released, __exit__ returns (l.1032-1052) *)
 | EndExc (p : proc) (c : exc_class) (* the block raised: __exit__(exc, ...) keeps the backup, releases the lock *)
 | Kill (p : proc)                (* the process dies; its fcntl lock dies with it *)
+| WaitFail (p : proc)            (* wait() raised (FailedExperiment: some job failed): the finally-clause releases
+                                    the lock and __exit__ raises *)
+| WaitOk (p : proc)              (* only in the repaired order (step_late): wait() returned, the backup is still there;
+                                    in the code as it is wait() is the last thing __exit__ does: its success is `Done` *)
 | MkJobDir (j : jobid)           (* environment: a job directory appears in workspace/jobs *)
 | RmJobDir (j : jobid).          (* environment: a job directory is deleted (e.g. orphans --clean) *)
 
 Definition actor (e : event) : option proc :=
   match e with
   | Lock p | MkBak p | Move p _ | Ready p | Submit p _ | Link p _ | EndOk p
-  | RmEntry p _ | RmBakDir p | Done p | EndExc p _ | Kill p => Some p
+  | RmEntry p _ | RmBakDir p | Done p | EndExc p _ | Kill p | WaitFail p | WaitOk p => Some p
   | MkJobDir _ | RmJobDir _ => None
   end.
 
@@ -186,6 +192,12 @@ Definition step (s : st) (e : event) : option st :=
   | Kill p =>
       if is_out (ph s p) then None
       else Some (mk (jobs s) (bak s) (release p (lock s)) (upd (ph s) p Out) (dirs s))
+  | WaitFail p =>
+      match ph s p with
+      | ExitWait _ _ => Some (mk (jobs s) (bak s) (release p (lock s)) (upd (ph s) p Out) (dirs s))
+      | _ => None
+      end
+  | WaitOk _ => None
   | MkJobDir j =>
       Some (mk (jobs s) (bak s) (lock s) (ph s) (if memz j (dirs s) then dirs s else j :: dirs s))
   | RmJobDir j =>
@@ -225,6 +237,60 @@ Definition keep_step (acc : list jobid * list jobid) (e : event) : list jobid * 
   end.
 Definition ghost (tr : list event) : list jobid * list jobid := fold_left keep_step tr ([], []).
 Definition kept (tr : list event) : list jobid := snd (ghost tr).
+
+(* ---- "completed" read as "wait() returned": the audit's reading of the property ---------------
+   `kept` above counts a plan as completed from the moment the block ends without exception (EndOk),
+   which is when the code drops the backup.  The property speaks of the last *completed* plan and of
+   runs that are killed: a run killed while its __exit__ is still waiting for its jobs (or whose wait()
+   raises because a job failed) has not completed.  kept_w: the links made by the last run whose wait()
+   returned (`Done` in the code as it is, `WaitOk` in the repaired order), and every link made since.  *)
+Definition keepw_step (acc : list jobid * list jobid) (e : event) : list jobid * list jobid :=
+  match e with
+  | Lock _ => ([], snd acc)
+  | Link _ j => (j :: fst acc, j :: snd acc)
+  | WaitOk _ | Done _ => (fst acc, fst acc)
+  | _ => acc
+  end.
+Definition ghostw (tr : list event) : list jobid * list jobid := fold_left keepw_step tr ([], []).
+Definition kept_w (tr : list event) : list jobid := snd (ghostw tr).
+
+(* ---- the repaired __exit__ (fixes/C16-1.diff): wait() first, rmtree(jobs.bak) only after it returned.
+   Everything else is the code as it is.  Order of a normal exit:
+     EndOk, (Link)*, WaitOk, RmEntry*, RmBakDir, Done        (code as it is: EndOk, RmEntry*, RmBakDir, (Link)*, Done) *)
+Definition step_late (s : st) (e : event) : option st :=
+  match e with
+  | EndOk p =>
+      match ph s p with
+      | Inside sub linked => Some (mk (jobs s) (bak s) (lock s) (upd (ph s) p (ExitWait sub linked)) (dirs s))
+      | _ => None
+      end
+  | WaitOk p =>
+      match ph s p with
+      | ExitWait sub linked =>
+          if forallb (fun j => memz j linked) sub
+          then Some (mk (jobs s) (bak s) (lock s) (upd (ph s) p (ExitRm sub linked)) (dirs s))
+          else None
+      | _ => None
+      end
+  | RmBakDir p =>
+      match ph s p with
+      | ExitRm sub linked =>
+          match bak s with
+          | Some (_ :: _) => None
+          | _ => Some (mk (jobs s) None (lock s) (upd (ph s) p (ExitFin sub linked)) (dirs s))
+          end
+      | _ => None
+      end
+  | Done p =>
+      match ph s p with
+      | ExitFin _ _ => Some (mk (jobs s) (bak s) (release p (lock s)) (upd (ph s) p Out) (dirs s))
+      | _ => None
+      end
+  | _ => step s e
+  end.
+Definition ostep_late (os : option st) (e : event) : option st :=
+  match os with Some s => step_late s e | None => None end.
+Definition run_late (s : st) (tr : list event) : option st := fold_left ostep_late tr (Some s).
 
 (* ---- variants of __enter__ / __exit__ used to show that the theorems depend on what the code
    does (they are *not* the code): a backup that is replaced instead of merged, and an exit
